@@ -808,8 +808,8 @@ type capCase struct {
 
 // TestC17_InputCaps: the code documents MAX_BYTES (2^27) as the exclusive
 // upper bound for entropy / personalisation / additional input and MAX_BYTES/2
-// for the nonce. Only the refusal side is checked (the accepting side would
-// hash 128 MiB through the naive model).
+// for the nonce. This is the refusal side for every mechanism and mode; the
+// accepting side (one byte below) is TestC17_InputCapsAccept.
 func TestC17_InputCaps(t *testing.T) {
 	h.Sweep(t, h.P{Name: "input-caps"}, func(emit func(capCase)) {
 		for _, m := range mechs {
@@ -862,6 +862,88 @@ func TestC17_InputCaps(t *testing.T) {
 		}
 		if err == nil {
 			return fmt.Errorf("instantiate accepted a %s at the documented exclusive bound (2^27 bytes, nonce 2^26)", c.Which)
+		}
+		return nil
+	})
+}
+
+var (
+	patOnce sync.Once
+	patBuf  []byte
+)
+
+// bigPattern: 2^27 bytes of a cheap non-constant pattern, read-only.
+func bigPattern() []byte {
+	patOnce.Do(func() {
+		patBuf = make([]byte, maxInputBytes)
+		x := uint32(0x9E3779B9)
+		for i := range patBuf {
+			x = x*1664525 + 1013904223
+			patBuf[i] = byte(x >> 24)
+		}
+	})
+	return patBuf
+}
+
+// TestC17_InputCapsAccept: the accepting side of every documented cap. An
+// input one byte below the bound (2^27-1 bytes, nonce 2^26-1) is an ordinary
+// instantiation / reseed input: it must be accepted and the next output must
+// equal the model's. One mechanism of each kind over stdlib primitives (the
+// naive model hashes / block-chains the whole 128 MiB), NIST mode (the cap
+// expressions are shared by both modes).
+func TestC17_InputCapsAccept(t *testing.T) {
+	h.Sweep(t, h.P{Name: "input-caps-accept"}, func(emit func(capCase)) {
+		for _, name := range []string{"hash-sha256", "hmac-sha256", "ctr-aes128"} {
+			for _, w := range []string{"nonce", "entropy", "personalization", "reseed-entropy", "reseed-additional"} {
+				emit(capCase{name, false, w})
+			}
+		}
+	}, func(c capCase, r *h.Rec) error {
+		r.Label("cap-1-" + c.Which)
+		r.Label(c.Mech + "/nist")
+		r.NT()
+		m := mechByName(c.Mech)
+		big := bigPattern()
+		ent := gen.Fill(1, 32)
+		nonce := gen.Fill(2, 16)
+		var pers, rsEnt, rsAdd []byte
+		switch c.Which {
+		case "entropy":
+			ent = big[:maxInputBytes-1]
+		case "nonce":
+			nonce = big[1 : maxInputBytes/2]
+		case "personalization":
+			pers = big[:maxInputBytes-1]
+		case "reseed-entropy":
+			rsEnt = big[1:]
+		case "reseed-additional":
+			rsEnt, rsAdd = gen.Fill(3, 32), big[:maxInputBytes-1]
+		}
+		ref, ec := newRef(m, c.GM, testInterval, ent, nonce, pers)
+		if ec != eOK {
+			return fmt.Errorf("c17 harness: model rejects a %s one byte below the cap", c.Which)
+		}
+		d, err := newLib(m, c.GM, drbg.SECURITY_LEVEL_TEST, false, ent, nonce, pers)
+		if err != nil {
+			return fmt.Errorf("instantiate rejected a %s of %d bytes, one below the documented exclusive bound: %v", c.Which, map[bool]int{true: maxInputBytes/2 - 1, false: maxInputBytes - 1}[c.Which == "nonce"], err)
+		}
+		if rsEnt != nil {
+			if ref.Reseed(rsEnt, rsAdd) != eOK {
+				return fmt.Errorf("c17 harness: model rejects the reseed")
+			}
+			if err := d.Reseed(rsEnt, rsAdd); err != nil {
+				return fmt.Errorf("Reseed rejected a %s of 2^27-1 bytes, one below the documented exclusive bound: %v", c.Which, err)
+			}
+		}
+		for i := 0; i < 2; i++ {
+			want, _ := ref.Generate(m.outlen()+1, nil)
+			got := make([]byte, m.outlen()+1)
+			if err := d.Generate(got, nil); err != nil {
+				return fmt.Errorf("Generate %d after a maximal %s: %v", i, c.Which, err)
+			}
+			if !bytes.Equal(got, want) {
+				return fmt.Errorf("output %d after a %s one byte below the cap = %x, specification says %x", i, c.Which, got, want)
+			}
 		}
 		return nil
 	})
